@@ -205,7 +205,9 @@ func reflectValue(rv reflect.Value, val any, opt *Options) (v any) {
 		v = rv.String()
 	case reflect.Bool:
 		v = rv.Bool()
-	case reflect.Float32, reflect.Float64:
+	case reflect.Float32:
+		v = decompose(float32(rv.Float()), opt) // same rounding as a float32 that is not reached through reflection
+	case reflect.Float64:
 		v = rv.Float()
 	case reflect.Int, reflect.Int8, reflect.Int16, reflect.Int32, reflect.Int64:
 		v = rv.Int()
